@@ -53,6 +53,10 @@ SUB_TEMPS = {"N2": [77.355, 87.3, 100.0], "Ar": [87.3, 95.0, 110.0], "CO2": [273
              "C2H4": [169.4, 200.0, 240.0], "NH3": [239.8, 270.0, 300.0], "Xe": [165.0, 200.0, 250.0], "CO": [81.6, 95.0, 110.0],
              "CH3OH": [298.15, 320.0, 350.0], "C2H5OH": [298.15, 320.0, 350.0], "C3H6": [225.5, 260.0, 300.0]}
 ADS_SUPER = [("N2", 298.15), ("CH4", 303.0), ("H2", 77.0), ("Ar", 200.0)]
+# user-defined gases that name a fluid of the thermodynamic backend (all constants come from there), sub-critical
+BACKEND_FLUIDS = [("Propane", 231.0), ("Ethane", 184.6), ("Krypton", 119.9), ("Xenon", 165.0), ("n-Butane", 272.7),
+                  ("Argon", 87.3), ("CarbonDioxide", 273.15), ("Methane", 111.7)]
+NEAR_ONE = [1.000004, 0.999996, 1.0000007]        # constants for which a conversion factor is almost, but not, one
 
 
 def tier_runs(tier):
@@ -79,16 +83,30 @@ def decode_rep(k):
 
 def gen_world(rng, index):
     labels = decode_rep(_PERM[index % len(_PERM)])
-    cls = rng.choices(["sub", "super", "user_full", "user_partial"], [45, 10, 25, 20])[0]
+    cls = rng.choices(["sub", "super", "user_full", "user_partial", "user_backend"], [42, 10, 23, 18, 7])[0]
     user_ads = None
+    ghosts = None
     if cls == "sub":
         ads, T = rng.choice(ADS_SUB)
     elif cls == "super":
         ads, T = rng.choice(ADS_SUPER)
+    elif cls == "user_backend":
+        fluid, T = rng.choice(BACKEND_FLUIDS)
+        ads = "VerifGas%d" % rng.randint(1, 9)
+        user_ads = {"name": ads, "backend_name": fluid}
+        if rng.random() < 0.7:
+            # earlier in the same program other user gases existed (and were used) and are gone
+            others = [f for f in BACKEND_FLUIDS if f[0] != fluid]
+            ghosts = [{"name": "VerifGhost%d" % k, "backend_name": f, "T": t} for k, (f, t) in
+                      enumerate(rng.choice(others) for _ in range(12))]
     else:
         M = round(rng.uniform(2.0, 200.0), 4)
         rl = round(rng.uniform(0.3, 2.0), 5)
         rg = round(rng.uniform(1e-4, 1e-2), 7)
+        if rng.random() < 0.06:
+            M = rng.choice([1000.0, 1.0]) * rng.choice(NEAR_ONE)
+        if rng.random() < 0.06:
+            rl = rng.choice(NEAR_ONE)
         props = {"molar_mass": M, "liquid_density": rl, "gas_density": rg,
                  "liquid_molar_density": rl / M, "gas_molar_density": rg / M,
                  "saturation_pressure": round(rng.uniform(1e3, 1e6), 2)}
@@ -102,9 +120,9 @@ def gen_world(rng, index):
     mcls = rng.choices(["both", "density", "molar_mass", "none"], [50, 20, 15, 15])[0]
     mat = {"name": "VerifMat%d" % rng.randint(1, 9)}
     if mcls in ("both", "density"):
-        mat["density"] = round(rng.uniform(0.2, 5.0), 4)
+        mat["density"] = round(rng.uniform(0.2, 5.0), 4) if rng.random() > 0.06 else rng.choice(NEAR_ONE)
     if mcls in ("both", "molar_mass"):
-        mat["molar_mass"] = round(rng.uniform(50.0, 5000.0), 3)
+        mat["molar_mass"] = round(rng.uniform(50.0, 5000.0), 3) if rng.random() > 0.06 else 1000.0 * rng.choice(NEAR_ONE)
     material = mat if len(mat) > 1 else mat["name"]
     # data
     n = rng.randint(3, 25)
@@ -179,6 +197,8 @@ def gen_world(rng, index):
             iso["branch_in_frame"] = True
     world = {"adsorbates": [user_ads] if user_ads else [], "iso": iso, "T_K": T,
              "ads_class": cls, "mat_class": mcls}
+    if ghosts:
+        world["ghost_gases"] = ghosts
     if isinstance(material, dict) and rng.random() < 0.2:
         # after the isotherm exists, another Material object of the same name with OTHER constants is put into the
         # in-memory list (as a later upload or Material(..., store=True) would): conversions must keep using the isotherm's own
@@ -357,6 +377,10 @@ def snapshot(iso):
         "material": [id(iso.material), dg.canon(iso.material.to_dict())],
         "adsorbate": [id(iso.adsorbate), dg.canon(iso.adsorbate.to_dict())],
         "keys": [iso.pressure_key, iso.loading_key],
+        # the rest of what a user can see of the frame and its roles: the names of the other columns as the isotherm
+        # reports them, the types of the column labels, the names of the two axes, the frame's attrs
+        "frame": dg.canon([list(getattr(iso, "other_keys", [])), [type(c).__name__ for c in df.columns],
+                           df.index.name, df.columns.name, dict(df.attrs)]),
     }
 
 
@@ -624,6 +648,10 @@ class Oracle:
             ch.append("column-order")
         if a["index"] != b["index"]:
             ch.append("index")
+        if a["keys"] != b["keys"]:
+            ch.append("column-roles")
+        if a.get("frame") != b.get("frame"):
+            ch.append("frame-attributes")
         for c in a["cols"]:
             if c in ignore_cols:
                 continue
@@ -684,6 +712,19 @@ class Oracle:
 def _apply(iso, op):
     o = op["op"]
     v = {"verbose": True} if op.get("verbose") else {}     # the logger is silenced; only the code path differs
+    if op.get("positional"):
+        # the same call with its arguments given by position, in the documented order
+        if o in ("convert_pressure", "convert_loading", "convert_material"):
+            first = op["mode_to"] if o == "convert_pressure" else op["basis_to"]
+            return getattr(iso, o)(first, op["unit_to"], **v)
+        if o in ("convert", "return"):
+            order = ["pressure_mode", "pressure_unit", "loading_basis", "loading_unit", "material_basis", "material_unit"]
+            kw = op["kw"]
+            last = max([i for i, k in enumerate(order) if k in kw], default=-1)
+            iso.convert(*[kw.get(k) for k in order[:last + 1]], **v)
+            if o == "return":
+                iso.convert_temperature(op["temperature_unit"], **v)
+            return None
     if o == "convert_pressure":
         iso.convert_pressure(mode_to=op["mode_to"], unit_to=op["unit_to"], **v)
     elif o == "convert_loading":
@@ -720,12 +761,48 @@ def _sub_world(world, k):
     return {"adsorbates": world["adsorbates"], "iso": sib["iso"], "T_K": sib["T_K"]}
 
 
+def _register_after_ghosts(world):
+    """Other user gases lived, were used and died before the world's gas is defined; the world's Adsorbate object is
+    created until it sits at the address one of them had (bounded) - a coincidence no result may depend on."""
+    import gc
+    import pygaps
+    from sim.worlds import build
+    ghosts = []
+    for g in world["ghost_gases"]:
+        a = pygaps.Adsorbate(g["name"], backend_name=g["backend_name"])
+        for fn in (lambda: a.saturation_pressure(g["T"]), lambda: a.molar_mass(), lambda: a.liquid_density(g["T"])):
+            try:
+                fn()
+            except Exception:
+                pass
+        ghosts.append(a)
+    addresses = {id(a) for a in ghosts}
+    del a, fn
+    ghosts.clear()
+    gc.collect()
+    held = []
+    hit = False
+    spec = world["adsorbates"][0]
+    for _ in range(80):
+        cand = build.make_adsorbate(spec)
+        if id(cand) in addresses:
+            hit = True
+            break
+        held.append(cand)
+    pygaps.ADSORBATE_LIST.append(cand)
+    del held
+    gc.collect()
+    return hit
+
+
 def execute(world, consts, rs=None, ops=None, n_ops=None):
     """Run a history (generated from rs, or the fixed list ops) in THIS process (a forked child).
 
     consts is a list, one entry per isotherm of the world (main isotherm, optional sibling)."""
     from sim.worlds import build
-    build.register_world({"adsorbates": world["adsorbates"]})
+    reused = _register_after_ghosts(world) if world.get("ghost_gases") else None
+    if reused is None:
+        build.register_world({"adsorbates": world["adsorbates"]})
     n_iso = 2 if world.get("sibling") else 1
     isos = [build.make_isotherm(_sub_world(world, k)["iso"]) for k in range(n_iso)]
     orcs = [Oracle(_sub_world(world, k), consts[k]) for k in range(n_iso)]
@@ -741,6 +818,11 @@ def execute(world, consts, rs=None, ops=None, n_ops=None):
 
     def count(k, n=1):
         counters[k] = counters.get(k, 0) + n
+
+    if reused is not None:
+        count("probe:gas-defined-after-other-user-gases-died")
+        if reused:
+            count("probe:adsorbate-at-address-of-dead-one")
 
     # the freshly built isotherms must themselves satisfy clauses 1-2 (else the world is at fault, not pyGAPS)
     for iso, orc in zip(isos, orcs):
@@ -776,6 +858,8 @@ def execute(world, consts, rs=None, ops=None, n_ops=None):
                 op["i"] = k
             if rng.random() < 0.12:
                 op["verbose"] = True
+            if rng.random() < 0.15 and op["op"] != "observe":
+                op["positional"] = True
         step += 1
         k = op.get("i", 0) if op.get("i", 0) < n_iso else 0
         iso, orc, start = isos[k], orcs[k], starts[k]
